@@ -177,11 +177,15 @@ def history(d, n, cache_kind="default"):
                 pre, body, tags=["clean", "fault-surfaced"])
 
 
-def cube(d, n, cache_kind, first_key):
+def cube(d, n, cache_kind, first_key, exc=None, cache=None):
     spec = history(d, n, cache_kind)
     inner = spec.pre
 
     def pre(keys, vals, direct, cache_remote, faults, exc_kind):
+        if exc is not None and exc_kind != exc:
+            return False
+        if cache is not None and cache_remote != cache:
+            return False
         return inner(keys, vals, direct, cache_remote, faults, exc_kind) and keys[0] == first_key
 
     spec.pre = pre
@@ -204,8 +208,14 @@ def conditions(tier, seed, active):
                     continue
                 if quick and d == 4 and fk % 2:
                     continue
-                out.append(dict(id="history2/d%d/%s/first%d" % (d, ck, fk), module=__name__, factory="cube",
-                                params=dict(d=d, n=2, cache_kind=ck, first_key=fk), timeout=1200, tags=["clean"], witness=[]))
+                if quick:
+                    # quick: the exception class rotates with the first key (every class for every key in the thorough tier)
+                    for cache in (True, False):
+                        out.append(dict(id="history2/d%d/%s/first%d/exc%d/cache%d" % (d, ck, fk, fk % 4, cache), module=__name__, factory="cube",
+                                        params=dict(d=d, n=2, cache_kind=ck, first_key=fk, exc=fk % 4, cache=cache), timeout=1200, tags=["clean"], witness=[]))
+                else:
+                    out.append(dict(id="history2/d%d/%s/first%d" % (d, ck, fk), module=__name__, factory="cube",
+                                    params=dict(d=d, n=2, cache_kind=ck, first_key=fk), timeout=2400, tags=["clean"], witness=[]))
             if not quick:
                 for fk in range(len(KEYS)):
                     out.append(dict(id="history3/d%d/%s/first%d" % (d, ck, fk), module=__name__, factory="cube",
